@@ -44,6 +44,46 @@ NEEDS = {
  "C19-B": ("C19", "patience.rs: the diff of the two unique-item lists calls lcs::diff_deadline instead of myers::diff_deadline (quadratic table over the unique items)", "many unique items between the first and last changed unique line"),
  "C20-A": ("C20", "abstraction.rs [u8]::tokenize_words uses is_ascii_whitespace", "word diffs on byte input with non-ASCII or VT whitespace next to an edit"),
  "C20-B": ("C20", "utils.rs unique(): occurrence map keyed by the item's 64-bit hash", "Patience + an item type whose legal Hash implementation collides"),
+ "C01-C": ("C01", "patience.rs Patience::equal: the new-side bound of the pre-anchor equal-run scan is dropped ('anchor uniqueness makes it redundant')", "Patience + DIFFERENT old/new item types whose cross comparison is coarser than each side's own Eq (case-insensitive / tolerance) + a repeated old item just before a unique anchor"),
+ "C01-D": ("C01", "myers.rs find_middle_snake: xdiff-style cost cap — with a deadline present and d >= 256 the furthest forward point is returned as split without clamping it to the box", "a deadline is SET (need not expire) + one box needs more than ~512 edits + a long lopsided fully rewritten stretch (100 old vs 1000 new distinct items)"),
+ "C02-C": ("C02", "text/mod.rs: the >100-token path uses IdentifyDistinct::<u16> when neither side exceeds u16::MAX tokens", "TextDiff with more than 65 536 DISTINCT tokens on both sides together while each side has <= 65 535 tokens (release: Equal ops pair unequal lines; debug: overflow panic)"),
+ "C02-D": ("C02", "patience.rs Patience::equal: new-side bound of the scan loop dropped", "heterogeneous old/new item types with a coarser cross comparison + repeated old item before a unique anchor"),
+ "C03-C": ("C03", "myers.rs find_middle_snake: snakes followed in 1024-item steps; the forward window mixes a box-relative with an absolute index", "a box of the old side that starts at an absolute index >= 1024 (common prefix of >= 1024 items or such a sub-range)"),
+ "C03-D": ("C03", "text/mod.rs: inputs over 100 tokens always interned with IdentifyDistinct::<u16>", "TextDiff + more than 65 536 distinct tokens (release: under-reported edits, ratio 1.0; debug: overflow panic)"),
+ "C04-C": ("C04", "myers.rs find_middle_snake: cost cap after 1024 rounds splits both ranges in half but uses n/2 for the new side too", "a sub-problem needing >= 1024 rounds (over ~2050 differing tokens) whose old side is more than twice its new side (2600-line block replaced by 100 lines)"),
+ "C04-D": ("C04", "text/mod.rs: IdentifyDistinct::<u16> whenever each side has at most 65535 tokens", "> 65 536 distinct tokens overall with both sides <= 65 535 tokens"),
+ "C05-C": ("C05", "text/mod.rs: lines interned with u16 ids when max(old.len, new.len) <= u16::MAX", "both texts together have >= 65 536 distinct lines while each has <= 65 535"),
+ "C05-D": ("C05", "udiff.rs UnifiedDiff::to_writer: output batched in a Vec and flushed at 64 KiB without clearing the buffer", ">= 64 KiB of rendered output through to_writer (any sink)"),
+ "C06-C": ("C06", "abstraction.rs str::tokenize_lines: fast path split_inclusive('\\n') when the first 8000 bytes contain no CR", "str input over 8000 bytes with no CR in the first 8000 and a lone CR later"),
+ "C06-D": ("C06", "abstraction.rs [u8]::tokenize_words: lead-byte pre-filter in front of is_whitespace omits 0xE1", "U+1680 OGHAM SPACE MARK in byte input"),
+ "C07-C": ("C07", "deadline_support.rs: thread-local cache of 'latest deadline known to have passed' with an inverted comparison", "REAL clock sequence on one thread: a diff that truly expires, then a diff with a later deadline (code sits behind the cfg(similar_verif) probe, never runs under a virtual clock)"),
+ "C07-D": ("C07", "text/mod.rs: Deadline enum replaced by two fields; timeout() forgets to clear a previously set deadline", "deadline(x) then timeout(t) on the same builder"),
+ "C08-C": ("C08", "myers.rs deadline-fallback branch: `if d.delete(..).is_ok() { d.insert(..)?; }` swallows a failing delete", "TWO fault dimensions: an expired deadline AND the injected hook failure landing exactly on the fallback delete"),
+ "C08-D": ("C08", "lcs.rs: memory guard for old_len * new_len > 1<<24 returns Ok(()) without d.finish()", "LCS on more than about 4096 x 4096 differing items"),
+ "C09-C": ("C09", "compact.rs: MAX_SLIDE = 1024 budget per shift call", "a run of more than 1024 identical items next to a pure insertion"),
+ "C09-D": ("C09", "text/mod.rs: common prefix/suffix trimmed before the capture pipeline in the >100-token path (Compact sees only the middle)", "TextDiff + more than 100 tokens + a last change that is a slidable pure insertion"),
+ "C10-C": ("C10", "compact.rs shift_diff_ops_down: one-step slide over the whole equal run comparing equal-run item k with inserted item k % ins_len (assumes transitivity)", "a NON-TRANSITIVE cross-type PartialEq (|a-b| <= tolerance) and an insert that can slide further than its own length"),
+ "C10-D": ("C10", "compact.rs cleanup_diff_ops: `if ops.len() > 1 << 16 { return; }`", "scripts with more than 65 536 ops"),
+ "C11-C": ("C11", "hook.rs: impl DiffHook for &mut D no longer forwards replace (default delete+insert carries the pre-delete old index)", "a capture stack built on a BORROWED hook: Compact::new(Replace::new(&mut capture), ..)"),
+ "C11-D": ("C11", "utils.rs IdentifyDistinct::new: (old_start, new_start) = (old_range.start, old_range.start)", "IdentifyDistinct + sub-ranges with different start offsets on the two sides"),
+ "C12-C": ("C12", "text/mod.rs TextDiff::grouped_ops: returns no groups when self.ratio() == 1.0", "about 2^23 tokens and a single insertion (the f32 ratio rounds to exactly 1.0)"),
+ "C12-D": ("C12", "udiff.rs: lazily filled 'group once' cache in UnifiedDiff is not cleared by context_radius()", "two-call sequence on ONE formatter object: iterate/render, change the radius, iterate again"),
+ "C13-C": ("C13", "iter.rs ChangesIter::nth fast path computes the Replace insert-skip from the total deletes", "a Replace op + an iterator already advanced by next() + nth/step_by crossing from deletes into inserts"),
+ "C13-D": ("C13", "iter.rs AllChangesIter::nth counts a Replace op's changes as max(old_len, new_len)", "iter_all_changes()/hunk.iter_changes() with skip/nth/step_by over a Replace"),
+ "C14-C": ("C14", "text/mod.rs: u16 ids when max(old.len, new.len) <= u16::MAX", "each side <= 65 535 tokens but more than 65 536 distinct tokens together"),
+ "C14-D": ("C14", "text/mod.rs: Lcs silently replaced by Myers when old.len() * new.len() > 1 << 24", "algorithm Lcs + more than 4096 x 4096 tokens + an edit region Myers and LCS resolve differently (two adjacent lines swapped)"),
+ "C15-C": ("C15", "utils.rs: UniqueItem caches a hash fingerprint and eq() compares it first", "different old/new item types whose Hash implementations differ for equal values"),
+ "C15-D": ("C15", "myers.rs find_middle_snake stops after 4096 rounds and uses the deadline fallback", "a box with more than about 8192 one-sided unique items (no deadline set)"),
+ "C16-C": ("C16", "inline.rs: the inline word diff runs on IdentifyDistinct::<u16> ids", "a Replace block with >= 65 536 distinct word tokens (debug/checked builds only: overflow panic)"),
+ "C16-D": ("C16", "inline.rs MultiLookup::new: MAX_WORDS_PER_LINE = 1000 keeps the rest of a long line as one token without checking that anything is left", "both sides have a line with EXACTLY 1000 word tokens whose last real tokens differ"),
+ "C17-C": ("C17", "text/mod.rs: u16 ids unless one side has more than 65535 tokens", "both sides <= 65 535 tokens and more than 65 536 distinct tokens in total"),
+ "C17-D": ("C17", "utils.rs SliceRemapper::new: token offsets computed as token.as_ptr() - source.as_ptr()", "the remapper is given an equal COPY of the texts (or separately owned tokens)"),
+ "C18-C": ("C18", "text/mod.rs get_close_matches: characters interned with IdentifyDistinct::<u16>", "word and candidate together have >= 65 536 distinct characters"),
+ "C18-D": ("C18", "text/mod.rs get_close_matches: Vec::with_capacity(n)", "n = usize::MAX or 1 << 62 (capacity overflow panic)"),
+ "C19-C": ("C19", "myers.rs find_middle_snake: forward snake extended in 1024-item steps but each step restarts at the snake start (L^2/2048 comparisons for a snake of length L; output unchanged)", "equal runs far beyond 1024 items between two edits: visible only at hundreds of thousands of items"),
+ "C19-D": ("C19", "patience.rs: gaps between matched unique items are diffed recursively with Patience instead of Myers", "deeply nested uniqueness (u2 u3 u2 u4 u3 ...) behind a differing core"),
+ "C20-C": ("C20", "abstraction.rs [u8]::tokenize_chars: a char decoded as U+FFFD is split into one token per byte (meant for invalid UTF-8)", "a literal, validly encoded U+FFFD in the text"),
+ "C20-D": ("C20", "utils.rs unique(): MAX_UNIQUE_ITEMS = 2048 applied with .take() on the HashMap iterator BEFORE the sort", "Patience + more than 2048 once-occurring items on one side + moved blocks"),
  "revert-D1": ("C01", "reverse of fix 813e92c (lcs identical-ranges shortcut ignores range starts)", "Lcs on identical sub-ranges with non-zero starts"),
  "revert-D2": ("C03", "reverse of fix 5daca5f (lcs table built over the wrong items)", "Lcs with a common prefix or non-zero range starts"),
  "revert-D3": ("C09", "reverse of fix 63c9d1e (lcs zero-length delete for two empty ranges)", "Lcs on two empty ranges"),
@@ -67,7 +107,7 @@ for sid in sorted(os.listdir(os.path.join(ROOT, "seeded"))):
         continue
     prop, what, needs = NEEDS.get(sid, ("?", "?", "?"))
     meta = {"id": sid, "breaks_property": prop, "change": what, "needs_to_manifest": needs,
-            "origin": "reverse patch of a fix: commit in /repo (the historical defect)" if sid.startswith("revert-") else "independent sub-agent given only the property text and a scratch worktree",
+            "origin": "reverse patch of a fix: commit in /repo (the historical defect)" if sid.startswith("revert-") else ("independent sub-agent, round 2: given the property text, a scratch worktree and the list of round-1 changes (all caught), asked for changes that are harder to detect" if sid[-1] in "CD" else "independent sub-agent, round 1: given only the property text and a scratch worktree"),
             "ran": []}
     c = os.path.join(d, "confirm.txt")
     if os.path.exists(c):
